@@ -52,7 +52,9 @@ RULE = (
     "Generated: family (Z2x2, Cubic1) and couplings, nucleation temperature, construction mode (direct "
     "tracePhase with ranges inside / crossing ends of phases, dT, rTol, paranoid; or WallGoManager set-up "
     "with phaseTracerTol and temperature scale; or a re-trace history on one object with evaluations in "
-    "between and optionally parameters changed in place), 16 generated temperatures per case (below, inside, above "
+    "between and optionally parameters changed in place; direct tables optionally widened with "
+    "extendInterpolationTable and/or handed over by the caller through newInterpolationTableFromValues from "
+    "work buffers that are re-used afterwards), 16 generated temperatures per case (below, inside, above "
     "each phase's range; TMin/TMax*(1 +- 10^[-9,-2])) plus a fixed log grid 0.2 TMin .. 5 TMax. "
     "Non-trivial = at least one evaluated temperature outside the tabulated range of its phase or within "
     "1e-2 (relative) of its end; distinct by canonical JSON of the case (model, construction, temperatures)."
@@ -193,6 +195,8 @@ def st_case(draw):
     if mode == "direct" and draw(st.integers(0, 2)) == 0:
         nb, na = draw(st.sampled_from([(0, 3), (4, 0), (2, 5), (0, 1), (1, 0)]))
         case["extend"] = {"which": draw(st.sampled_from(["high", "low"])), "nbelow": nb, "nabove": na}
+    if mode == "direct" and draw(st.integers(0, 3)) == 0:
+        case["user_table"] = draw(st.sampled_from(["arrays", "arrays", "lists"]))
     if mode == "history":
         # the SAME Thermodynamics object is traced a second time (other ranges / dT / rTol), optionally after
         # a parameter of the potential was changed in place; derivatives are requested in between
@@ -344,6 +348,26 @@ def build(case, v):
     except (AssertionError, RuntimeError) as exc:
         v.label("outcome:trace:" + type(exc).__name__)
         return None
+    if case.get("user_table"):
+        # the tables are handed over by the caller (public newInterpolationTableFromValues: "takes in precomputed
+        # function values"), who fills ONE pair of work buffers first with the high-T, then with the low-T phase and
+        # clears it afterwards; the tables must be the values that were handed over, whatever is rebuilt later
+        # (extension, extrapolation types)
+        tabs = [(fe, np.array(fe._interpolationPoints, dtype=float), np.array(fe._interpolationValues, dtype=float))
+                for fe in (th.freeEnergyHigh, th.freeEnergyLow)]
+        nmax = max(len(x) for _, x, _ in tabs)
+        bufx, buff = np.zeros(nmax), np.zeros((nmax, tabs[0][2].shape[1]))
+        for fe, x, f in tabs:
+            bufx[:len(x)], buff[:len(x)] = x, f
+            if case["user_table"] == "lists":
+                fe.newInterpolationTableFromValues(list(bufx[:len(x)]), [row for row in buff[:len(x)]])
+            elif len(x) == nmax:
+                fe.newInterpolationTableFromValues(bufx, buff)
+            else:
+                fe.newInterpolationTableFromValues(bufx[:len(x)], buff[:len(x)])
+        bufx[:] = np.linspace(2.0, 1.0, nmax) * float(np.max(bufx))
+        buff[:] = -1.0
+        v.label(f"tables:user-supplied-{case['user_table']}")
     ext = case.get("extend")
     if ext:
         # the user widens a traced table (public extendInterpolationTable) on one side or on both, staying where the
@@ -368,6 +392,35 @@ def build(case, v):
         th.setExtrapolate()
     except (OverflowError, ZeroDivisionError, FloatingPointError, ValueError) as exc:
         err = exc
+    if case.get("user_table"):
+        # the installed tables interpolate the values that were handed over (a cubic spline reproduces its nodes)
+        v.checked("user-table")
+        for fe, x, f in tabs:
+            try:
+                val = fe(x)
+                got = np.column_stack([np.asarray(val.fieldsAtMinimum, dtype=float).reshape(len(x), -1),
+                                       np.asarray(val.veffValue, dtype=float).reshape(len(x), 1)])
+                colmax = np.max(np.abs(f), axis=0)
+                dev = float(np.max(np.abs(got - f) / np.where(colmax > 0, colmax, 1.0)))
+            except Exception as exc:  # noqa: BLE001  (whatever a corrupted table makes of the evaluation)
+                got, dev = None, float("inf")
+                v.info["user_table_error"] = f"{type(exc).__name__}: {exc}"[:200]
+            # ... and the table the object keeps (what writeInterpolationTable writes, what a later rebuild uses)
+            # still contains every handed-over row
+            tab = zp.table_of(fe)
+            if dev <= 1e-12 and tab is not None:
+                idx = np.searchsorted(tab[0], x)
+                idx = np.clip(idx, 0, len(tab[0]) - 1)
+                kept = (np.all(np.abs(tab[0][idx] - x) <= 1e-14 * np.abs(x))
+                        and np.all(np.abs(tab[1][idx] - f) <= 1e-14 * np.where(colmax > 0, colmax, 1.0)))
+                if not kept:
+                    dev = float("inf")
+                    v.info["user_table_error"] = "stored table no longer contains the handed-over rows"
+            if not dev <= 1e-12:
+                v.fail("user-table", f"supplied={case['user_table']} extended={bool(ext)}",
+                       f"after the caller re-used its buffers, the table of {fe.__class__.__name__} evaluated at the "
+                       f"handed-over temperatures differs from the handed-over values by {dev:.3e} (relative)")
+                return None
     if case["mode"] != "history" or err is not None:
         return th, cf, V, case["rTol"], case["dT"], Tn, err
     # ---- call history on ONE object: derivatives requested, then new tables installed -----------------
